@@ -1,5 +1,234 @@
-"""C03 write inference (E1) -- placeholder until built."""
+"""C03, write inference (E1): write_inference._invert_expression is executed
+on real ir_data expression trees whose constants are unbounded symbolic
+integers; z3 proves that the returned inverse, composed with the forward
+expression, is the identity for every written value and every constant, and
+that None is returned exactly for the non-invertible shapes."""
+
+import itertools
+
+import z3
+
+from vf import pysym
+from vf.pysym import SymInt, SymIntStr
+from vf.checks import c05  # instrumented module list
+
+from compiler.front_end import write_inference, expression_bounds
+from compiler.util import ir_data, ir_util
+
+FM = ir_data.FunctionMapping
+OPS = {"+": FM.ADDITION, "-": FM.SUBTRACTION, "*": FM.MULTIPLICATION}
+
+
+def const_leaf(term):
+    v = SymIntStr(SymInt(term))
+    return ir_data.Expression(
+        constant=ir_data.NumericConstant(value=v),
+        type=ir_data.ExpressionType(integer=ir_data.IntegerType(
+            modulus="infinity", modular_value=v, minimum_value=v, maximum_value=v)))
+
+
+def ref_leaf(name):
+    return ir_data.Expression(
+        field_reference=ir_data.FieldReference(path=[ir_data.Reference(
+            canonical_name=ir_data.CanonicalName(module_file="m.emb", object_path=["S", name]))]),
+        type=ir_data.ExpressionType(integer=ir_data.IntegerType(
+            modulus="1", modular_value="0", minimum_value="-infinity", maximum_value="infinity")))
+
+
+def fn(op, a, b):
+    return ir_data.Expression(
+        function=ir_data.Function(function=OPS[op], args=[a, b]),
+        type=ir_data.ExpressionType(integer=ir_data.IntegerType(
+            modulus="1", modular_value="0", minimum_value="-infinity", maximum_value="infinity")))
+
+
+def evaluate(e, env):
+    w = e.which_expression
+    if w == "constant":
+        v = e.constant.value
+        return v.sym.t if isinstance(v, SymIntStr) else z3.IntVal(int(v))
+    if w == "field_reference":
+        return env["ref:" + e.field_reference.path[-1].canonical_name.object_path[-1]]
+    if w == "builtin_reference":
+        return env["$logical_value"]
+    if w == "function":
+        a = [evaluate(x, env) for x in e.function.args]
+        f = e.function.function
+        if f == FM.ADDITION:
+            return a[0] + a[1]
+        if f == FM.SUBTRACTION:
+            return a[0] - a[1]
+        if f == FM.MULTIPLICATION:
+            return a[0] * a[1]
+    raise AssertionError("unexpected node %r" % w)
+
+
+def shapes(max_depth):
+    """Yields (description, builder) where builder(consts) -> (expression,
+    n_refs, invertible)."""
+    sib_kinds = ("const", "const_expr", "ref")
+    for depth in range(0, max_depth + 1):
+        for spine in itertools.product(itertools.product("+-*", (0, 1)), repeat=depth):
+            for sibs in itertools.product(sib_kinds, repeat=depth):
+                if sum(1 for s in sibs if s != "const") > 1:
+                    continue
+                yield spine, sibs
+
+
+def build(spine, sibs, fresh):
+    """Builds the tree from the inside out: the innermost node is the field reference x."""
+    e = ref_leaf("x")
+    nrefs = 1
+    for (op, side), sib in zip(reversed(spine), reversed(sibs)):
+        if sib == "const":
+            s = const_leaf(fresh())
+        elif sib == "const_expr":
+            s = fn("+", const_leaf(fresh()), const_leaf(fresh()))
+        else:
+            s = ref_leaf("y")
+            nrefs += 1
+        e = fn(op, e, s) if side == 0 else fn(op, s, e)
+    return e, nrefs
 
 
 def run(rep, tier):
-    return {"queries": 0, "note": "not built yet"}
+    depth = 3 if tier == "quick" else 4
+    stats = pysym.Stats()
+    out = {"shapes": 0, "queries": 0, "discharged": 0, "invertible_shapes": 0, "rejected_shapes": 0,
+           "max_spine_depth": depth, "functions": ["write_inference._invert_expression",
+                                                    "write_inference._find_field_reference_path"]}
+    violations = []
+    for spine, sibs in shapes(depth):
+        out["shapes"] += 1
+        holder = {}
+
+        def body(c):
+            n = [0]
+
+            def fresh():
+                n[0] += 1
+                return z3.Int("c%d" % n[0])
+
+            e, nrefs = build(spine, sibs, fresh)
+            holder["e"], holder["nrefs"] = e, nrefs
+            return write_inference._invert_expression(e, None)
+
+        def on_path(pr):
+            c = pr.ctx
+            e, nrefs = holder["e"], holder["nrefs"]
+            desc = {"spine": ["%s@%d" % s for s in spine], "siblings": list(sibs)}
+            if pr.kind == "raise":
+                m = c.witness()
+                if m is not None:
+                    violations.append((desc, "exception %s: %s" % (type(pr.exc).__name__, pr.exc), {}))
+                return
+            additive_spine = all(op in "+-" for op, _ in spine)
+            should_invert = nrefs == 1 and additive_spine
+            if pr.value is None:
+                out["rejected_shapes"] += 1
+                out["queries"] += 1
+                if should_invert:
+                    violations.append((desc, "invertible shape was not inverted", {}))
+                else:
+                    out["discharged"] += 1
+                return
+            out["invertible_shapes"] += 1
+            if not should_invert:
+                violations.append((desc, "an inverse was returned for a non-invertible shape", {}))
+                return
+            dest, inv = pr.value
+            v = z3.Int("v")
+            x_written = evaluate(inv, {"$logical_value": v})
+            readback = evaluate(e, {"ref:x": x_written})
+            out["queries"] += 2
+            ok_dest = dest.which_expression == "field_reference" and \
+                dest.field_reference.path[-1].canonical_name.object_path[-1] == "x"
+            if ok_dest:
+                out["discharged"] += 1
+            else:
+                violations.append((desc, "destination is not the referenced field", {}))
+            r, model = c.prove(readback == v)
+            if r == "unsat":
+                out["discharged"] += 1
+            elif r == "sat":
+                vals = {str(d): model.eval(d, model_completion=True).as_long() for d in pysym._consts_of(readback == v)}
+                violations.append((desc, "writing v stores a value that does not read back as v", vals))
+            else:
+                rep.inconclusive_item("write inference %r: solver unknown" % (desc,))
+
+        with pysym.instrument(*c05.INSTRUMENTED, write_inference):
+            st1, _ = pysym.explore(body, on_path, max_paths=200)
+        stats.add(st1)
+    # replay: concrete trees through the real function with plain strings
+    seen = set()
+    for desc, what, vals in violations:
+        sig = (tuple(desc["spine"]), tuple(desc["siblings"]), what)
+        if sig in seen:
+            continue
+        seen.add(sig)
+        ok, observed = replay_concrete(desc, vals)
+        if ok:
+            rep.violation({"part": "write_inference", "spine": desc["spine"], "siblings": desc["siblings"]},
+                          "write inference for shape %s / %s: %s (%s)" % (desc["spine"], desc["siblings"], what, observed),
+                          {"desc": desc, "vals": vals, "what": what})
+        else:
+            rep.harness_error("write-inference candidate did not reproduce: %r %s (%s)" % (desc, what, observed))
+    out["paths"] = stats.paths
+    out["solver_queries"] = stats.queries
+    if out["invertible_shapes"] == 0:
+        rep.harness_error("write inference: no invertible shape reached the oracle (vacuous)")
+    rep.sample({"write_inference_shape": {"spine": ["-@0", "+@1"], "meaning": "c2 + (x - c1)"},
+                "obligation": "forall v, c1, c2: forward(inverse(v)) == v"})
+    return out
+
+
+def replay_concrete(desc, vals):
+    """Re-runs the real _invert_expression with plain decimal strings."""
+    counter = [0]
+
+    def fresh():
+        counter[0] += 1
+        return z3.IntVal(vals.get("c%d" % counter[0], 3 + 2 * counter[0]))
+
+    spine = [(s.split("@")[0], int(s.split("@")[1])) for s in desc["spine"]]
+
+    def cleaf(term):
+        v = str(term.as_long())
+        return ir_data.Expression(constant=ir_data.NumericConstant(value=v), type=ir_data.ExpressionType(
+            integer=ir_data.IntegerType(modulus="infinity", modular_value=v, minimum_value=v, maximum_value=v)))
+
+    global const_leaf
+    saved = const_leaf
+    const_leaf = cleaf
+    try:
+        e, nrefs = build(spine, desc["siblings"], fresh)
+        try:
+            res = write_inference._invert_expression(e, None)
+        except Exception as ex:  # pylint: disable=broad-except
+            return True, "real code raised %s: %s" % (type(ex).__name__, ex)
+    finally:
+        const_leaf = saved
+    additive = all(op in "+-" for op, _ in spine)
+    should = nrefs == 1 and additive
+    if res is None:
+        return should, "returned None"
+    if not should:
+        return True, "returned an inverse"
+    dest, inv = res
+    v = vals.get("v", 1000)
+
+    def ev(x, env):
+        w = x.which_expression
+        if w == "constant":
+            return int(x.constant.value)
+        if w == "field_reference":
+            return env["x"]
+        if w == "builtin_reference":
+            return env["v"]
+        a = [ev(y, env) for y in x.function.args]
+        f = x.function.function
+        return a[0] + a[1] if f == FM.ADDITION else a[0] - a[1] if f == FM.SUBTRACTION else a[0] * a[1]
+
+    xw = ev(inv, {"v": v})
+    rb = ev(e, {"x": xw})
+    return rb != v, "wrote %d, stored x=%d, reads back %d" % (v, xw, rb)
